@@ -5,6 +5,7 @@ import PharmpyModel.C06.Effects
 import PharmpyModel.Generated.Effects
 import PharmpyModel.C06.Names
 import PharmpyModel.Generated.Containers
+import PharmpyModel.C06.Cache
 open Pharmpy Pharmpy.C06
 
 /-- `(a s)`, `(i id content)`, `(f id content)`, `(d (k v)…)`, `(t v…)`, `(o Cls v…)` -/
@@ -24,6 +25,15 @@ partial def valOf? : Sexp → Option Val
 def itemOf? : Sexp → Option Names.Item
   | .list [.list ns, .atom a] => (ns.mapM Sexp.asAtom?).map (fun ns => ⟨ns, a⟩)
   | _ => none
+
+def cacheOp? : Sexp → Option Cache.Op
+  | .list [.atom "h"] => some .hashIt
+  | .list [.atom "r", .atom k, .atom v] => some (.replaceFresh k v)
+  | .list [.atom "c"] => some .copyCtor
+  | _ => none
+
+/-- an order-free stand-in for `hash(frozenset(items))` -/
+def cacheH (c : Cache.Content) : Nat := c.foldl (fun acc kv => acc + (kv.1.hash.toNat % 1000003) * 31 + kv.2.hash.toNat % 1000003) 7
 
 def bad : Sexp := .list [.atom "err", .atom "bad-op"]
 
@@ -52,6 +62,15 @@ def handle (req : Sexp) : Sexp :=
       | .error n => .list [.atom "err", .atom n]
     | _, _, _, none => .list [.atom "err", .atom "no-such-op"]
     | _, _, _, _ => bad
+  | .list [.atom "cacheops", .list ops] =>
+    match ops.mapM cacheOp? with
+    | some ops =>
+      let (_, out) := ops.foldl (fun (st : Cache.Obj × List Sexp) op =>
+        let o := Cache.step cacheH op st.1
+        (o, st.2 ++ [Sexp.list [Sexp.ofBool o.cache.isSome, Sexp.ofBool (Cache.hashOf cacheH o == cacheH o.content),
+                                 Sexp.ofStrs (o.content.map (·.1))]])) (⟨[], none⟩, [])
+      .list out
+    | none => bad
   | .list [.atom "effects"] =>
     .list (Generated.effects.map (fun f => .list [.atom f.name, Sexp.ofBool (Eff.check f), Sexp.ofStrs (Eff.taintedWrites f)]))
   | .list [.atom "unanalysed"] => Sexp.ofStrs Generated.unanalysed
